@@ -16,6 +16,17 @@ CLAIMS = {
             "and compared with an exact sparse model; held = no mismatch on the counted nodes. "
             "Exploration is the right level: the input space is unbounded and the oracle is exact.",
             "3 C01"),
+    "C09": ("reference-model monitor: numpy itself on an object array of opaque model elements",
+            "Every shape / join / split / select / indexing function of the statement is called with "
+            "seeded valid arguments in the numpoly, numpy and method spellings; the result shape and "
+            "every element are compared with what numpy does to an object array of exact model "
+            "polynomials, names and dtype are compared with the operand's.",
+            "3 C09"),
+    "C10": ("reference-model monitor: folds of exact model + and *",
+            "sum cumsum mean prod diff ediff1d inner outer matmul det are called over every axis / "
+            "axis tuple / keepdims / n / prepend / append choice and compared with exact folds "
+            "(det by Leibniz expansion up to 4x4).",
+            "3 C10"),
     "C14": ("history checker against a sequential stack model + injected faults",
             "All valid option histories up to the length bound are executed with real with-blocks "
             "and compared with a stack model after every step (exhaustive within the bound), plus "
